@@ -830,6 +830,12 @@ func (f *frame) preserve(old, st *State, skip map[string]bool) {
 func (f *frame) applyContract(at ssa.Instruction, ct *Contract, args []T, st *State) []T {
 	e := f.e
 	a, pos := f.anchor(at)
+	for _, t := range ct.Assumes {
+		e.assumed[t] = true
+	}
+	if ct.IsIface && len(ct.Ensures) > 0 {
+		e.assumed["interface contract of "+ct.Key+" assumed at calls through the interface; the module's implementations restate and prove its clauses by hand (refinement is not machine-checked)"] = true
+	}
 	env := &specEnv{f: f, vars: map[string]T{}, cur: st, old: st, pkg: ct.Pkg, lets: ct.Lets}
 	for i, n := range ct.ParamNames {
 		if i < len(args) {
@@ -1265,6 +1271,24 @@ func (f *frame) havocPattern(st *State, pat string, ct *Contract, env *specEnv) 
 	}
 	if strings.HasPrefix(pat, "heap:") {
 		e.havoc(st, strings.TrimPrefix(pat, "heap:"))
+		return
+	}
+	if strings.HasPrefix(pat, "newobjects:") {
+		// the callee fills objects it allocates itself: heap NAME keeps its contents at every reference that existed
+		// before the call (the body check allows writes to fresh objects only, since the pattern grants nothing else)
+		name := strings.TrimPrefix(pat, "newobjects:")
+		srt, known := e.heapSort[name]
+		if !known {
+			e.note("modifies newobjects: heap " + name + " not in use at the call, treated as modified")
+			e.havoc(st, name)
+			return
+		}
+		old := e.H(st, name, srt)
+		w0 := e.H(st, "W", "Int")
+		e.declFun("owner", []string{"Int"}, "Int")
+		e.havoc(st, name)
+		nw := e.H(st, name, srt)
+		e.assume(implies(st.cond, "(forall ((r Int)) (! (=> (<= (owner r) "+w0+") (= (select "+nw+" r) (select "+old+" r))) :pattern ((select "+nw+" r))))"))
 		return
 	}
 	if strings.HasPrefix(pat, "reach(") && strings.HasSuffix(pat, ")") {
